@@ -7,7 +7,8 @@
 (*   "plain"      NameLaws + NameRow of every string of PlainDom -> VERIF_OUT*)
 (*   "rle"        the same for every RLE string of the domain              *)
 (*   "rle:<ch>"   the same for the RLE strings starting with ch (parallel) *)
-(*   "tags"       TagLaws, GeneratedTagLaws + TagRow of every query of TagDom*)
+(*   "tags"       laws, GeneratedTagLaws + TagRow of every query of TagDom   *)
+(*   "tags:app" / "tags:hook"   the same in two halves (parallel)          *)
 (*   "file"       rows for the inputs of VERIF_IN (ndjson; {"k":"name","s":*)
 (*                runs} or {"k":"tag","t":runs,"inst":runs,"has":bool,     *)
 (*                "comp":runs}, runs = [[ch,n],..])           -> VERIF_OUT *)
@@ -15,7 +16,8 @@
 EXTENDS Naming, IOUtils, Json
 
 CONSTANTS PlainAlpha, PlainMax,     \* all plain strings of length <= PlainMax over PlainAlpha
-          RleAlpha, RleLens, RleMaxRuns   \* RLE strings: <= RleMaxRuns runs, chars RleAlpha, run lengths RleLens
+          RleAlpha, RleLens, RleMaxRuns,  \* RLE strings: <= RleMaxRuns runs, chars RleAlpha, run lengths RleLens
+          TagLevel                        \* 1: reduced sets of tag parts (quick), 2: full sets
 
 Part == IOEnv.VERIF_PART
 
@@ -37,16 +39,21 @@ S2(c1, c2) == Cat(Str1(c1), Str1(c2))
 S3(c1, c2, c3) == Cat(S2(c1, c2), Str1(c3))
 Us == Str1("_")
 
-InstS == { S2("a","b"), R("a",40), S2("a","0"), S2("0","a"), S3("a","-","b"),
-           Cat(Cat(R("a",40), Us), R("0",10)), Cat(S2("a","b"), S2("_","k")),           \* valid
-           R("a",1), S2("1","2"), R("a",41), Cat(S2("a","b"), Us), Cat(Cat(S2("a","b"), Us), R("0",11)),
-           S3("-","a","b"), S3("a","b","-"), Cat(S2("a","-"), S2("-","b")), S2("A","b"),
-           Cat(S2("a","b"), S2("_","K")), <<>>, S3("a",".","b") }                        \* invalid
-CompS == { NoComp, Comp(S2("c","d")), Comp(R("a",40)), Comp(S2("0","c")),
-           Comp(R("1",1)), Comp(R("c",1)), Comp(R("a",41)), Comp(S2("C","d")), Comp(<<>>), Comp(S2("1","2")) }
-NameS0 == { R("x",1), S3("x","-","y"), S2("X","1"), S2("1","x"), Cat(S2("x","-"), S2("-","y")), S2("-","x"),
-            S2("x","-"), <<>>, S3("x",".","y"), S3("x","+","y"), S2("x","!"), HookLit }
-Kinds == {"app", "hook", "hooq", "snaq"}
+InstQ == { S2("a","b"), R("a",40), S2("0","a"), Cat(Cat(R("a",40), Us), R("0",10)),                  \* valid
+           R("a",1), S2("1","2"), R("a",41), Cat(Cat(S2("a","b"), Us), R("0",11)), S2("A","b") }         \* invalid
+InstF == InstQ \cup
+         { S2("a","0"), S3("a","-","b"), Cat(S2("a","b"), S2("_","k")),                                 \* valid
+           Cat(S2("a","b"), Us), S3("-","a","b"), S3("a","b","-"), Cat(S2("a","-"), S2("-","b")),
+           Cat(S2("a","b"), S2("_","K")), <<>>, S3("a",".","b") }                                       \* invalid
+CompQ == { NoComp, Comp(S2("c","d")), Comp(R("a",40)), Comp(R("1",1)), Comp(R("a",41)) }
+CompF == CompQ \cup { Comp(S2("0","c")), Comp(R("c",1)), Comp(S2("C","d")), Comp(<<>>), Comp(S2("1","2")) }
+NameQ == { R("x",1), S3("x","-","y"), S2("X","1"), S2("1","x"), S2("x","-"), <<>>, S3("x",".","y"), HookLit }
+NameF == NameQ \cup { Cat(S2("x","-"), S2("-","y")), S2("-","x"), S3("x","+","y"), S2("x","!") }
+InstS  == IF TagLevel = 1 THEN InstQ ELSE InstF
+CompS  == IF TagLevel = 1 THEN CompQ ELSE CompF
+NameS0 == IF TagLevel = 1 THEN NameQ ELSE NameF
+Kinds == {"app", "hook"}
+BadKinds == {"hooq", "snaq"}      \* wrong literals: only with the first few parts
 
 GenTag(kind, inst, comp, name) ==
     LET ic == IF comp.has THEN Cat(Cat(inst, Plus), comp.s) ELSE inst
@@ -68,27 +75,40 @@ Queries(inst, comp) ==
       [inst |-> OtherInst, comp |-> comp],
       [inst |-> SnapOfInstance(inst), comp |-> comp] }
 
-TagDom == UNION { UNION { { [t |-> GenTag(k, i, c, n), inst |-> q.inst, comp |-> q.comp] : q \in Queries(i, c) }
-                          : n \in NameS0 \cup FillNames(k, i, c) }
-                  : k \in Kinds, i \in InstS, c \in CompS }
+TagQ(k, i, c, N) == UNION { { [t |-> GenTag(k, i, c, n), inst |-> q.inst, comp |-> q.comp] : q \in Queries(i, c) }
+                            : n \in N }
+TagDomKind(k) == UNION { TagQ(k, i, c, NameS0 \cup FillNames(k, i, c)) : i \in InstS, c \in CompS }
+TagDomBad == UNION { TagQ(k, i, c, NameQ) : k \in BadKinds, i \in {S2("a","b"), R("a",1)}, c \in {NoComp, Comp(S2("c","d"))} }
+TagDom == TagDomKind("app") \cup TagDomKind("hook") \cup TagDomBad
 
 ---------------------------------------------------------------------------
-(* Laws checked by TLC on the bounded domains (Part = "theorems") *)
+(* Laws checked by TLC on the bounded domains, evaluated together with the verdict row of each element *)
+(* (one pass; the checker requires laws = TRUE in every row: a FALSE is a spec-level counterexample).    *)
 
-NameLaws(s) ==
-    /\ ValidSnapName(s) <=> (ValidInstanceName(s) /\ IndexOf(s, "_") = 0)
-    /\ ValidInstanceName(s) => (SLen(s) >= 2 /\ SLen(s) <= 51 /\ ValidSnapName(SnapOfInstance(s)))
-    /\ ValidSnapName(s) => ValidAppName(s)
-    /\ ValidHookName(s) => ValidAppName(s)
-    /\ ValidSnapComponent(s) => (SLen(s) >= 5 /\ SLen(s) <= 81 /\ ~ValidInstanceName(s))
-    /\ (ValidInstanceName(s) /\ ValidAppName(R("x", 1))) => TagBelongs(AppTag(s, R("x", 1)), s, NoComp)
+NameRec(s) ==
+    LET r == NameRow(s)
+        laws ==
+          /\ r.snap <=> (r.inst /\ IndexOf(s, "_") = 0)
+          /\ r.inst => (r.len >= 2 /\ r.len <= 51 /\ ValidSnapName(SnapOfInstance(s)))
+          /\ r.snap => r.app
+          /\ r.hook => r.app
+          /\ r.comp => (r.len >= 5 /\ r.len <= 81 /\ ~r.inst)
+          /\ r.inst => TagBelongs(AppTag(s, R("x", 1)), s, NoComp)        \* an accepted snap's app tag is its own
+    IN [r |-> r, laws |-> laws]
 
-TagLaws(q) ==
-    LET p == ParseTag(q.t) IN
-    /\ TagBelongs(q.t, q.inst, q.comp) => (ValidInstanceName(q.inst) /\ (q.comp.has => ValidSnapName(q.comp.s)))
-    /\ p.ok => (TagBelongs(q.t, p.inst, p.comp)                      \* a tag belongs to exactly what it parses to
-                /\ (TagBelongs(q.t, q.inst, q.comp) => (q.inst = p.inst /\ q.comp = p.comp))
-                /\ q.t = (IF p.kind = "app" THEN AppTag(p.inst, p.name) ELSE HookTag(p.inst, p.comp, p.name)))
+TagRec(q) ==
+    LET r == TagRow(q)
+        p == ParseTag(q.t)
+        laws ==
+          /\ r.belongs => (r.instok /\ r.compok)
+          /\ r.inv => (r.belongs /\ TagInScope(q.t))
+          /\ p.ok => /\ r.belongs <=> (q.inst = p.inst /\ q.comp = p.comp)  \* a tag belongs to exactly what it parses to
+                      /\ q.t = (IF p.kind = "app" THEN AppTag(p.inst, p.name) ELSE HookTag(p.inst, p.comp, p.name))
+          /\ ~p.ok => ~r.belongs
+          /\ r.inv <=> InvocationAccepts(q.t, q.inst, IF q.comp.has
+                                                       THEN Comp(Cat(Cat(SnapOfInstance(q.inst), Plus), q.comp.s))
+                                                       ELSE NoComp)
+    IN [r |-> r, laws |-> laws]
 
 \* every app / hook tag of a snap the daemon accepts parses back to that snap (and component)
 GeneratedTagLaws ==
@@ -96,11 +116,8 @@ GeneratedTagLaws ==
         /\ (ValidInstanceName(i) /\ ValidAppName(n)) => TagBelongs(AppTag(i, n), i, NoComp)
         /\ (ValidInstanceName(i) /\ (c.has => ValidSnapName(c.s)) /\ ValidHookName(n)) => TagBelongs(HookTag(i, c, n), i, c)
 
-\* every part evaluates the laws and the verdict row of each element of its domain in one pass; the checker
-\* requires laws = TRUE in every row (a FALSE is a spec-level counterexample) and counts the classes
-Rec(r, ok) == [r |-> r, laws |-> ok]
-NamePart(D) == JsonSerialize(IOEnv.VERIF_OUT, [rows |-> {Rec(NameRow(s), NameLaws(s)) : s \in D}, gen |-> TRUE])
-TagPart(D)  == JsonSerialize(IOEnv.VERIF_OUT, [rows |-> {Rec(TagRow(q), TagLaws(q)) : q \in D}, gen |-> GeneratedTagLaws])
+NamePart(D) == JsonSerialize(IOEnv.VERIF_OUT, [rows |-> {NameRec(s) : s \in D}, gen |-> TRUE])
+TagPart(D)  == JsonSerialize(IOEnv.VERIF_OUT, [rows |-> {TagRec(q) : q \in D}, gen |-> GeneratedTagLaws])
 
 ---------------------------------------------------------------------------
 (* Inputs supplied by the checker (random strings beyond the bound, edited tags) *)
@@ -116,6 +133,8 @@ Work ==
     CASE Part = "plain"    -> NamePart(PlainDom)
       [] Part = "rle"      -> NamePart(UNION {RleDomFrom(ch) : ch \in RleAlpha})
       [] Part = "tags"     -> TagPart(TagDom)
+      [] Part = "tags:app" -> TagPart(TagDomKind("app") \cup TagDomBad)
+      [] Part = "tags:hook" -> TagPart(TagDomKind("hook"))
       [] Part = "file"     -> JsonSerialize(IOEnv.VERIF_OUT, [rows |-> FileTable(ndJsonDeserialize(IOEnv.VERIF_IN))])
       [] OTHER             -> \E ch \in RleAlpha : Part = RlePrefix \o ch /\ NamePart(RleDomFrom(ch))
 
